@@ -354,7 +354,7 @@ impl Handler<VariablesRequest> for VariablesRequestHandler {
                         }
                         result
                     }
-                    _ => panic!(),
+                    _ => HashMap::new(),
                 };
 
                 let variables = variables
@@ -391,7 +391,8 @@ impl Handler<VariablesRequest> for VariablesRequestHandler {
                     Variable::new("C - Carry", fmt(flags & 1)),
                 ]
             }
-            _ => panic!(),
+            // Not a reference we have handed out
+            _ => vec![],
         };
 
         let response = VariablesResponse { variables };
